@@ -8,6 +8,7 @@ ENGINES = {
     "H2": {"name": "prison-sim", "pkg": "./bfe_modules/mod_prison", "desc": "real mod_prison handler, rule table, rule-file loader and LRU dictionaries driven by timed request histories on the simulated clock"},
     "B": {"name": "health-sim", "pkg": "./bfe_balance/backend", "desc": "real BfeBackend + UpdateStatus + check() goroutine (a scheduler task via the go-statement rewrite) probing through simnet with seeded verdicts on the fake clock"},
     "C": {"name": "node-sim", "pkg": "./bfe_server", "desc": "whole BfeServer (NewBfeServer/InitHttp/InitDataLoad/modules) built from generated config files, real conn.serve/ReverseProxy/bfe_http.Transport, scripted clients and backends on simnet"},
+    "D2": {"name": "http1-codec-sim", "pkg": "./bfe_http", "desc": "real bfe_http chunked reader/writer and ReadRequest fed through seeded segmenting / failing readers (simio), against the href RFC 7230 reference parsers"},
     "A": {"name": "balancer-sim", "pkg": "./bfe_balance", "desc": "real bal_table/bal_gslb/bal_slb/backend under the lock-granular scheduler, fake clock, configs through the real file loaders"},
 }
 
@@ -77,6 +78,12 @@ PROPS["C26"] = dict(expect_probes=["c26_connection_listed_checked"], gomaxprocs=
 PROPS["C27"] = dict(expect_probes=["c27_full_response_checked", "c27_truncation_checked"], gomaxprocs=1, selftest_gomaxprocs=("1", "1", "1"), engine="C", runs=(1500, 60000), modes=[("nofault", 0.3), ("swarm", 0.7)], race=False, level="exploration", design="§6 Engine C / C27", level_text='Same node simulation; backend responses vary status (200/201/204/304/404/500/503/301), header sets (duplicates, Content-Type present/absent), framing (Content-Length, chunked with trailers, close-delimited), interim 100, slow bodies, and mid-response failures; clients vary method (GET/HEAD/POST/PUT), HTTP/1.0/1.1, keep-alive/close. The client-side byte stream is parsed by the reference response parser: one final response per request, backend status, end-to-end headers preserved per name in order, equal body (empty for HEAD/204/304), undelimited responses only on a closing connection, and a backend failure mid-body never delivered as a complete shorter body on a connection that stays open.', level_note="Trusted: simrt/simnet, href reference response parser. Reading of 'same headers': preserved, BFE may add Date / sniffed Content-Type / Connection / its own framing; Content-Type dropped from a 304 is not flagged (RFC 7232 4.1).", technique="deterministic simulation: whole-node run with scripted clients/backends on a simulated network, seeded faults and schedules, wire-level reference-parser oracles")
 
 PROPS["C28"] = dict(expect_probes=["c28_all_answered"], gomaxprocs=1, selftest_gomaxprocs=("1", "1", "1"), engine="C", runs=(1500, 60000), modes=[("nofault", 0.3), ("swarm", 0.7)], race=False, level="exploration", design="§6 Engine C / C28", level_text='Same node simulation with sequential and pipelined (2-4) request bursts per connection, bodies with Content-Length and chunked framing, HEAD, HTTP/1.0, arbitrary segmentation of the client byte stream: responses arrive in request order with at most one final response each, every request a backend receives was sent by a client (a body re-read as a request shows up as an unknown id or an unparseable request), and a connection with unanswered requests is closed.', level_note='Trusted: simrt/simnet, href parsers, request ids embedded in targets and backend ids in responses.', technique="deterministic simulation: whole-node run with scripted clients/backends on a simulated network, seeded faults and schedules, wire-level reference-parser oracles")
+
+PROPS["C23"] = dict(expect_probes=["roundtrip_ok", "truncation_rejected", "malformed_rejected"], engine="D2", runs=(20000, 1000000), modes=[("nofault", 0.25), ("swarm", 0.75)], race=False,
+    level="exploration", design="§6 Engine D / C23",
+    level_text="Seeded encoder->decoder round trips (bodies 0-5000 bytes, arbitrary chunkings, empty writes) through a reader that delivers the encoded bytes in seeded segments down to one byte with occasional (0,nil) reads and optional small bufio sizes; plus mutated encodings (size-line variants incl. empty, signed, 0x, 17 hex digits, overflow, control bytes; truncation at any offset; bare LF; broken CRLF after data). Oracle: an RFC 7230 4.1 reference decoder on the same bytes: equal bytes + clean end, or an error when the reference says malformed, and never a clean end on a truncated stream.",
+    level_note="Trusted: simrt/simio, href.DecodeChunked (tolerates chunk extensions and BWS, rejects empty/over-long/non-hex sizes and bare LF). Input-driven; the simulator contributes segmentation, zero reads and truncation.",
+    technique="deterministic simulation: seeded segmentation/truncation of the byte stream feeding the real codec, differential against an executable RFC reference")
 
 NOT_APPLICABLE = {
     "C10": "pure function of (host table, VIP table, Host header): no goroutine, clock, stream, file or peer takes part; the only thing to vary is input, which is generation, not simulation (DESIGN §7)",
